@@ -1,7 +1,9 @@
 """C18 — split partitions its input, lazily, evaluating each element once."""
 import itertools
 
+from ..core import lean
 from ..core.common import Outcome, rng_for, fingerprint
+from ..core.par import run_chunks, mark
 
 ID = 'C18'
 MODULE = 'AiutiVerif.Split.Props'
@@ -198,6 +200,7 @@ def evaluate(ctx, cases, out):
     answers = ctx.driver.ask(lines)
     for case, ans in zip(cases, answers):
         out.evaluations += 1
+        mark(case)
         try:
             outs, pulled, predlog = run_impl(case)
         except Exception as e:  # the real code raised: a violation of "yields exactly …"
@@ -243,19 +246,36 @@ def exhaust_cases(out):
     out.count('exhaust', 9)
 
 
-def run(ctx):
+class _Ctx:
+    pass
+
+
+def _chunk(payload):
+    quick, seed, part, nparts = payload
+    ctx = _Ctx()
+    ctx.quick, ctx.seed, ctx.driver = quick, seed, lean.Driver()
     out = Outcome()
-    exhaust_cases(out)
+    if part == 0:
+        exhaust_cases(out)
     batch = []
-    for case in gen_cases(ctx):
+    for i, case in enumerate(gen_cases(ctx)):
+        if i % nparts != part:
+            continue
         batch.append(case)
-        if len(batch) >= 20000:
+        if len(batch) >= 5000:
             evaluate(ctx, batch, out)
             batch = []
             if len(out.concrete) + len(out.diffs) > 50:
                 break
     if batch:
         evaluate(ctx, batch, out)
+    return out
+
+
+def run(ctx):
+    nparts = 4 if ctx.quick else ctx.workers
+    out = run_chunks(_chunk, [(ctx.quick, ctx.seed, k, nparts) for k in range(nparts)], nparts,
+                     limit_s=180 if ctx.quick else 1500)
     out.extra['exhaustive_part'] = ('all sources of length <= %d over 3 values x condition family x all '
                                     'op strings up to length n+2' % (3 if ctx.quick else 4))
     return out
